@@ -56,7 +56,7 @@ func (fs *FS) Mkdir(name string, perm hackpadfs.FileMode) error {
 			return fs.wrapperErr("mkdir", name, err)
 		}
 	}
-	return fs.wrapperErr("mkdir", name, file.save())
+	return fs.wrapperErr("mkdir", name, fs.setFile(name, file.fileData))
 }
 
 func (fs *FS) newDir(name string, perm hackpadfs.FileMode) *file {
@@ -72,7 +72,7 @@ func (fs *FS) MkdirAll(path string, perm hackpadfs.FileMode) error {
 	for i := len(missingDirs) - 1; i >= 0; i-- { // missingDirs are in reverse order
 		name := missingDirs[i]
 		file := fs.newDir(name, perm)
-		err := file.save()
+		err := fs.setFile(name, file.fileData)
 		err = fs.wrapperErr("mkdirall", name, err)
 		err = ignoreErrExist(err)
 		if err != nil {
@@ -210,7 +210,7 @@ func (fs *FS) OpenFile(name string, flag int, perm hackpadfs.FileMode) (afFile h
 			return nil, fs.wrapperErr("open", name, err)
 		}
 		storeFile = fs.newFile(name, flag, perm&hackpadfs.ModePerm)
-		if err := storeFile.save(); err != nil {
+		if err := fs.setFile(name, storeFile.fileData); err != nil {
 			return nil, fs.wrapperErr("open", name, err)
 		}
 	default:
